@@ -19,6 +19,8 @@
 // Output: ONE line:  init <dump> ;; <cmd> ev=<tid.pc:ret/errno@now,..> <dump> ;; ...
 //   dump = V<v>[r=<ring, CURRENT first> q=<sleepq, sorted tids> b=<standbyq order> n=<nthreads>] ...
 //          T<k>=<N|Y|R|S|B|D><vcpu>[z = in a sleepq][w<j> = in the join queue of j][e<error_number>][c<started><returned><stack releases>]
+//   !NOTE tokens: WRONGCPU (a thread reached a gate on the OS thread of a vCPU it does not belong to), BADIDX (sleepq index),
+//          UNLOCKED(rule<id>) (a hooked access was executed without the lock the code's own rules name, lockset hook)
 // Every case runs in a forked child (fresh scheduler, no teardown); a runaway child is stopped by
 // a CPU-time limit, a blocked one by a generous wall-clock limit (`HANG`).
 #include "repo_thread_cpp.h"
@@ -100,6 +102,18 @@ static int released_of(thread* th) {
 }
 
 static void note(const std::string& s) { notes.push_back(s); }
+static void install_fatal_handlers();
+
+// lockset hook (thread.h PHOTON_VERIF_LS): every hooked access names the lock(s) that protect it.  One vCPU acts at a time,
+// so "the lock is held" = "the acting vCPU holds it": a hooked access outside its lock is reported deterministically.
+static void ls_cb(int id, const void*, const void* l1, const void* l2) {
+    if (id < 10) return;                        // acquire / release events
+    if ((l1 && !((const photon::spinlock*)l1)->locked()) || (l2 && !((const photon::spinlock*)l2)->locked())) {
+        std::string n = "UNLOCKED(rule" + std::to_string(id) + ")";
+        for (auto& x : notes) if (x == n) return;
+        note(n);
+    }
+}
 
 // ---- the gate: the executing OS thread hands the token back and blocks until its vCPU is commanded again ----
 __attribute__((noinline)) static Cmd gate() {
@@ -233,6 +247,7 @@ static void* my_idler(void*) {
 static void* os_main(void* arg) {
     int v = (int)(intptr_t)arg;
     os_index_tls = v;
+    install_fatal_handlers();
     if (photon::vcpu_init(VFLAGS[v]) < 0) { const char* m = "INITFAIL\n"; (void)!write(g_outfd, m, strlen(m)); _exit(0); }
     VC[v] = photon::CURRENT->get_vcpu();
     CURSLOT[v] = &photon::CURRENT;
@@ -322,6 +337,38 @@ static void emit(const std::string& s0) {
     std::string s = s0 + "\n";
     size_t off = 0;
     while (off < s.size()) { ssize_t n = write(g_outfd, s.data() + off, s.size() - off); if (n <= 0) break; off += n; }
+}
+// ---- a fatal signal / an inconsistent CURRENT ends the case, but what was observed so far is still printed -------------
+static std::string g_out;            // dumps so far
+static const char* g_cmd = "";       // command being executed
+static void fatal_handler(int sig) {
+    char buf[64]; int n = snprintf(buf, sizeof buf, "CRASH(sig%d) ", sig);
+    (void)!write(g_outfd, buf, n);
+    (void)!write(g_outfd, g_out.data(), g_out.size());
+    (void)!write(g_outfd, " ;; ", 4);
+    (void)!write(g_outfd, g_cmd, strlen(g_cmd));
+    (void)!write(g_outfd, "\n", 1);
+    _exit(0);
+}
+static void install_fatal_handlers() {
+    // every OS thread needs its own alternate stack (the fault may be a photon stack that became PROT_NONE)
+    stack_t ss; ss.ss_sp = malloc(1 << 16); ss.ss_size = 1 << 16; ss.ss_flags = 0;
+    sigaltstack(&ss, nullptr);
+    struct sigaction sa; memset(&sa, 0, sizeof sa);
+    sa.sa_handler = fatal_handler; sa.sa_flags = SA_ONSTACK | SA_NODEFER;
+    for (int sg : {SIGSEGV, SIGBUS, SIGILL, SIGFPE, SIGABRT}) sigaction(sg, &sa, nullptr);
+}
+// the thread a vCPU's OS thread is parked in must be a RUNNING thread of that vCPU, else the replay cannot go on
+static std::string current_sane() {
+    for (int v = 0; v < NV; v++) {
+        thread* cur = *CURSLOT[v];
+        if (!cur) return "vCPU " + std::to_string(v) + " has no CURRENT thread";
+        std::string t = tid_of(cur);
+        if (t == "?") return "the CURRENT thread of vCPU " + std::to_string(v) + " is not a live thread";
+        if (cur->get_vcpu() != VC[v]) return "the CURRENT thread T" + t + " of vCPU " + std::to_string(v) + " belongs to another vCPU";
+        if (cur->state != photon::RUNNING) return "the CURRENT thread T" + t + " of vCPU " + std::to_string(v) + " is not RUNNING";
+    }
+    return "";
 }
 static uint64_t clock_cb() { return vclock; }
 static int idle_cb(uint64_t, uint64_t) { return 1; }     // the library's idler() never runs; belt and braces
@@ -413,18 +460,23 @@ static void child_main(const std::string& line, int outfd) {
     photon::photon_verif_clock = clock_cb;
     photon::photon_verif_idle = idle_cb;
     photon::photon_verif_c05_yield_window = yield_window_cb;
+    photon::photon_verif_ls_cb = ls_cb;
     sem_init(&sem_done, 0, 0);
     for (int v = 0; v < NV; v++) sem_init(&sem_v[v], 0, 0);
-    int limit = getenv("E4_STEP_TIMEOUT_S") ? atoi(getenv("E4_STEP_TIMEOUT_S")) : 60;
+    int limit = getenv("E4_STEP_TIMEOUT_S") ? atoi(getenv("E4_STEP_TIMEOUT_S")) : 30;
+    install_fatal_handlers();
     for (int v = 0; v < NV; v++) {          // one after the other: the pvcpu list order is the index order
         pthread_t th;
         pthread_attr_t at; pthread_attr_init(&at); pthread_attr_setstacksize(&at, 1 << 20);
         if (pthread_create(&th, &at, os_main, (void*)(intptr_t)v) != 0) { emit("INITFAIL"); _exit(0); }
         if (!wait_done(limit)) { emit("HANG init"); _exit(0); }
     }
-    std::string out = "init " + dump();
+    std::string& out = g_out;
+    out.reserve(1 << 16);
+    out = "init " + dump();
     for (auto& c : cmds) {
         evs.clear(); notes.clear();
+        g_cmd = c.text.c_str();
         if (c.k == TICK) {
             uint64_t n = vclock + c.d; if (n < vclock) n = (uint64_t)-1;
             vclock = n; photon::__update_now();
@@ -433,7 +485,10 @@ static void child_main(const std::string& line, int outfd) {
             sem_post(&sem_v[c.v]);
             if (!wait_done(limit)) { emit("HANG " + out + " ;; " + c.text); _exit(0); }
         }
-        out += " ;; " + c.text + " ev=" + events() + " " + dump();
+        std::string seg = " ;; " + c.text + " ev=" + events() + " " + dump();
+        out += seg;
+        std::string bad = current_sane();
+        if (!bad.empty()) { std::replace(bad.begin(), bad.end(), ' ', '_'); emit("ABORT(" + bad + ") " + out); _exit(0); }
     }
     emit(out);
     _exit(0);
